@@ -9,7 +9,7 @@ proof:          lean/OdfModel/Props/C06.lean (+ slices Props/C06/S*.lean): for e
 correspondence: EXHAUSTIVE sweep of the real API against the model (drv_grammar): every ordered (parent, child) pair
                 through addElement (empty parent, filled parent, check_grammar on/off), every (element, keyword)
                 through setAttribute, every element x {addText, addCDATA}, every constructor with each required
-                attribute left out, every factory.  Decision *and* exception class are compared.
+                attribute left out and with keyword arguments (also on elements without attribute table), every factory.  Decision *and* exception class are compared.
 oracle:         the same observed decisions against the schema's answer (Lean semantics via the driver, cross-checked
                 by an independent Python reading of the .rng files in this file): a difference that is neither an
                 Exception nor a known finding is a violation, named by its row.
@@ -517,6 +517,97 @@ class Sweep(object):
                     chk.fail('required-all-given:%s' % V.EN[e], {'op': 'Element()', 'element': V.EN[e], 'given': [V.AN[a] for a in given]},
                              'constructor refused although every required attribute was given: %s' % o)
 
+    # ---- constructor with keyword arguments (since /repo 36c2235 every keyword goes through setAttribute,
+    #      also on elements without an allowed_attributes row, and whatever check_grammar the constructor got)
+    def constructor_keywords(self):
+        chk, V, drv, Element = self.chk, self.V, self.drv, self.Element
+        Q = V.G.elems.items; AQ = V.G.attrs.items; KN = V.KN
+        T = V.G.py_tables
+        aid = V.G.attrs.ids
+        kidx = dict((k, i) for i, k in enumerate(KN))
+        bogus = kidx[tg.BOGUS_KEYWORDS[0]]
+        cases = []
+        for e in range(V.n):
+            row = T['allowed_attributes'].get(Q[e])
+            treq = [aid[a] for a in T['required_attributes'].get(Q[e], [])]
+            ks = [[bogus]]
+            if row:
+                k0 = V.G.attr_kw[aid[row[0]]]
+                ks += [[k0], [k0, bogus], [V.G.attr_kw[aid[row[-1]]]]]
+            for a in sorted(x for x in V.S[e]['at'] if x != -1)[:2]:
+                if [V.G.attr_kw[a]] not in ks:
+                    ks.append([V.G.attr_kw[a]])          # a keyword the schema permits (refused when the row is missing)
+            for kws in ks:
+                for chk_on in (True, False):
+                    cases.append((e, treq, kws, chk_on))
+        ans = drv.batch('ctorkw %d %d %s %s' % (1 if c else 0, e, ','.join(map(str, g)) or '-', ','.join(map(str, kws)))
+                        for e, g, kws, c in cases)
+        for (e, given, kws, chk_on), m in zip(cases, ans):
+            probe = Element(qname=Q[e], check_grammar=False)
+            qattrs = dict((AQ[a], self.good_value(AQ[a], probe)) for a in given)
+            if any(v is None for v in qattrs.values()):
+                chk.count('ctorkw_skipped_no_value'); continue
+            # what setAttribute itself does with each keyword on the real code (the reference for the constructor)
+            first_refused = None; value_trouble = False
+            kwargs = {}
+            for k in kws:
+                el = Element(qname=Q[e], check_grammar=False)
+                val = u'1'
+                try:
+                    el.setAttribute(KN[k], val)
+                except AttributeError:
+                    if first_refused is None:
+                        first_refused = k
+                except Exception:
+                    # accepted name, unsuitable value: look for a suitable one
+                    val = None
+                    for v in VALUE_CANDIDATES:
+                        try:
+                            Element(qname=Q[e], check_grammar=False).setAttribute(KN[k], v); val = v; break
+                        except Exception:
+                            continue
+                    if val is None:
+                        value_trouble = True
+                kwargs[KN[k]] = val
+            if value_trouble:
+                chk.count('ctorkw_skipped_no_value'); continue
+            try:
+                Element(qname=Q[e], qattributes=qattrs, check_grammar=chk_on, **kwargs)
+                o = 'ok'
+            except AttributeError as ex:
+                msg = str(ex)
+                mm = re.match(r'Required attribute missing: (\S+) in <', msg)
+                if mm:
+                    o = 'err AttributeError missing ' + mm.group(1)
+                else:
+                    mk = re.match(r'Attribute (\S+) is not allowed in', msg)
+                    if mk:
+                        o = 'err AttributeError kw ' + mk.group(1)
+                    elif msg.startswith('Unable to add simple attribute'):
+                        o = 'err AttributeError kw ' + KN[kws[0] if first_refused is None else first_refused]
+                    else:
+                        o = 'err AttributeError ? ' + msg[:40]
+            except Exception as ex:
+                o = 'err ' + classify(ex)
+            mk = m
+            p = m.split()
+            if p[:3] == ['err', 'AttributeError', 'kw']:
+                mk = 'err AttributeError kw ' + KN[int(p[3])]
+            elif p[:3] == ['err', 'AttributeError', 'missing']:
+                mk = 'err AttributeError missing ' + V.KN[V.G.attr_kw[int(p[3])]]
+            chk.corr(); chk.count('constructor_keyword_calls')
+            if o != mk:
+                chk.corr_diff({'op': 'Element(**kw)', 'element': V.EN[e], 'keywords': [KN[k] for k in kws], 'check_grammar': chk_on}, o, mk,
+                              'constructor with keyword arguments: outcome and the keyword / attribute named in the message')
+            chk.case(('ctorkw', e, tuple(kws), chk_on), nontrivial=T['allowed_attributes'].get(Q[e]) is None,
+                     sample={'element': V.EN[e], 'keywords': [KN[k] for k in kws], 'outcome': o} if (e % 151 == 0 and chk_on) else None)
+            # oracle: the constructor refuses a keyword exactly when setAttribute refuses it (then the schema comparison of
+            # the setAttribute sweep speaks for both), independent of check_grammar
+            refused_by_ctor = o.startswith('err AttributeError kw')
+            if refused_by_ctor != (first_refused is not None) or o.startswith('err AttributeError ?') or o.startswith('err Other'):
+                chk.fail('ctor-keyword:%s@%s' % (V.EN[e], KN[kws[0]]), {'op': 'Element(**kw)', 'element': V.EN[e], 'keywords': [KN[k] for k in kws], 'check_grammar': chk_on},
+                         'constructor: %s; setAttribute refuses %s' % (o, 'nothing' if first_refused is None else repr(KN[first_refused])))
+
     # ---- factories
     def factories(self):
         chk, V, drv = self.chk, self.V, self.drv
@@ -593,6 +684,7 @@ def run(chk, replay=None):
     t = time.time(); sw.text(); chk.count('t_text_s', round(time.time() - t, 1))
     t = time.time(); sw.attributes(); chk.count('t_attrs_s', round(time.time() - t, 1))
     t = time.time(); sw.constructors(); chk.count('t_ctor_s', round(time.time() - t, 1))
+    t = time.time(); sw.constructor_keywords(); chk.count('t_ctorkw_s', round(time.time() - t, 1))
     t = time.time(); sw.factories(); chk.count('t_factories_s', round(time.time() - t, 1))
     chk.extra_cov['table_sizes'] = {'schema_defines': len(G.defnames), 'elements': V.n, 'schema_elements': sum(1 for s in V.S if s['elem']),
                                     'attributes': V.na, 'keywords': V.nk,
